@@ -7,6 +7,7 @@ package main
 
 import (
 	"fmt"
+	"go/token"
 	"go/types"
 	"os"
 	"sort"
@@ -260,6 +261,29 @@ func (m *MemSSA) clobberVer(in ssa.Instruction, key string) *MemVer {
 func (m *MemSSA) transfer(in ssa.Instruction, cur map[string]*MemVer) {
 	switch in := in.(type) {
 	case *ssa.Store:
+		// *p = *p with nothing in between (what go/ssa emits for "return namedResult, err"): no change
+		if ld, ok := in.Val.(*ssa.UnOp); ok && ld.Op == token.MUL && ld.X == in.Addr && ld.Block() == in.Block() {
+			quiet, started := true, false
+			for _, x := range in.Block().Instrs {
+				if x == ssa.Instruction(ld) {
+					started = true
+					continue
+				}
+				if x == ssa.Instruction(in) {
+					break
+				}
+				if !started {
+					continue
+				}
+				switch x.(type) {
+				case *ssa.Store, ssa.CallInstruction, *ssa.MapUpdate, *ssa.Send:
+					quiet = false
+				}
+			}
+			if quiet {
+				return
+			}
+		}
 		k := m.addrKey(in.Addr)
 		if k != "" {
 			for _, k2 := range m.keys {
@@ -276,6 +300,31 @@ func (m *MemSSA) transfer(in ssa.Instruction, cur map[string]*MemVer) {
 				}
 			}
 			return
+		}
+		// a store into an element of an array that is itself a tracked cell changes (part of) that array only
+		for a := in.Addr; a != nil; {
+			var base ssa.Value
+			switch x := a.(type) {
+			case *ssa.FieldAddr:
+				a = x.X
+				continue
+			case *ssa.IndexAddr:
+				if _, isArr := deref(x.X.Type()).Underlying().(*types.Array); isArr {
+					base = x.X
+				}
+			}
+			if base == nil {
+				break
+			}
+			if kb := m.addrKey(base); kb != "" {
+				for _, k2 := range m.keys {
+					if related(kb, k2) {
+						cur[k2] = m.clobberVer(in, k2)
+					}
+				}
+				return
+			}
+			a = base
 		}
 		// a store into (part of) a local allocation cannot alias parameter or global cells
 		for a := in.Addr; a != nil; {
